@@ -236,6 +236,9 @@ class _Angle:
     def value(self):
         return self
 
+    def __neg__(self):
+        return _Angle(self.c, -self.s)
+
 
 def _install_trig():
     from .. import facade
@@ -833,6 +836,86 @@ def _run_exactcore(case):
     return dict(stats=st, findings=f, samples=samples, nontrivial=cnt['n'])
 
 
+def _run_exactellipse(case):
+    """elliptical_overlap_single_exact with the triangle/unit-circle routine
+    replaced by a recording stub: the pixel corners are mapped to the frame
+    in which the ellipse is the unit circle (the same frame as the ellipse
+    predicate of the sub-pixel kernel), the two triangles share the diagonal
+    and tile the image parallelogram, and the result is the sum of the two
+    triangle values times the Jacobian rx*ry."""
+    from .. import facade
+    facade.install()
+    ns = _load_pyx(True)
+    cnt = dict(n=0)
+    samples = []
+
+    def fn(ctx):
+        xmin, ymin = ctx.real('xmin'), ctx.real('ymin')
+        w_, h_ = ctx.real('w'), ctx.real('h')
+        rx, ry = ctx.real('rx'), ctx.real('ry')
+        c, s_ = ctx.real('c'), ctx.real('s')
+        ctx.assume(z3.And(w_.e > 0, h_.e > 0, rx.e > 0, ry.e > 0,
+                          c.e * c.e + s_.e * s_.e == 1))
+        xmax, ymax = xmin + w_, ymin + h_
+        calls = []
+
+        def tri(x1, y1, x2, y2, x3, y3):
+            v = SymReal(ctx.fresh('tri'))
+            calls.append(((x1, y1), (x2, y2), (x3, y3), v))
+            return v
+        ns['overlap_area_triangle_unit_circle'] = tri
+        res = ns['elliptical_overlap_single_exact'](
+            xmin, ymin, xmax, ymax, rx, ry, _Angle(c, s_))
+        cnt['n'] += 1
+        T = lambda v: term(const(v))  # noqa
+        params = dict(kind='exactellipse')
+        if len(calls) != 2:
+            ctx.find('exact:ellipse:calls', f'{len(calls)} triangle calls',
+                     ctx.witness(), params=params)
+            return
+        corners = {1: (xmin.e, ymin.e), 2: (T(xmax), ymin.e),
+                   3: (T(xmax), T(ymax)), 4: (xmin.e, T(ymax))}
+
+        def frame(p):
+            x, y = p
+            return ((x * c.e + y * s_.e), (-x * s_.e + y * c.e))
+        groups = {}
+        expect = [(1, 2, 3), (1, 4, 3)]
+        for (pa, pb, pc, v), idx in zip(calls, expect):
+            for (X, Y), k in zip((pa, pb, pc), idx):
+                u, vv = frame(corners[k])
+                groups.setdefault('frame', []).append(
+                    z3.And(T(X) * rx.e == u, T(Y) * ry.e == vv))
+        if case.get('twin'):
+            groups['frame'].append(T(calls[0][0][0]) * rx.e
+                                   == frame(corners[2])[0])
+
+        # tiling, in the rotated (u, v) frame (the map to the unit-circle
+        # frame is the positive diagonal scaling established by 'frame'):
+        # the triangles (1,2,3) and (1,4,3) lie on opposite sides of the
+        # shared diagonal and their areas add up to the pixel area
+        def area2(i, j, k):     # twice the signed area in the (u, v) frame
+            (pu, pv), (qu, qv), (ru, rv) = (frame(corners[i]),
+                                            frame(corners[j]),
+                                            frame(corners[k]))
+            return (qu - pu) * (rv - pv) - (ru - pu) * (qv - pv)
+        a1 = area2(*expect[0])
+        a2 = area2(*expect[1])
+        groups['tiling'] = [a1 == w_.e * h_.e, a2 == -w_.e * h_.e]
+        groups['sum'] = [T(res) == (T(calls[0][3]) + T(calls[1][3]))
+                         * rx.e * ry.e]
+        for site, cl in groups.items():
+            r_, m = ctx.holds(z3.And(cl), site)
+            if r_ == 'sat':
+                ctx.find(f'exact:ellipse:{site}', 'ellipse exact kernel: '
+                         + site, ctx.witness(m), params=params)
+        if len(samples) < 1:
+            samples.append(dict(ncalls=len(calls)))
+
+    _, st, f = explore(fn, timeout_ms=60000)
+    return dict(stats=st, findings=f, samples=samples, nontrivial=cnt['n'])
+
+
 # ---------------------------------------------------------------- translation validation
 def _tv_check(seed, n):
     from photutils.geometry import (circular_overlap_grid,
@@ -907,6 +990,7 @@ def run_case(case):
             'setops': _run_setops, 'extent': _run_extent,
             'wiring': _run_wiring, 'kernel': _run_kernel,
             'exactsplit': _run_exactsplit, 'exactcore': _run_exactcore,
+            'exactellipse': _run_exactellipse,
             'tv': _run_tv}[case['kind']](case)
 
 
@@ -939,6 +1023,9 @@ def cases(tier, seed):
     cs.append(dict(kind='exactsplit', name='exact-circle-split-twin',
                    twin=True))
     cs.append(dict(kind='exactcore', name='exact-circle-core'))
+    cs.append(dict(kind='exactellipse', name='exact-ellipse-frame'))
+    cs.append(dict(kind='exactellipse', name='exact-ellipse-twin',
+                   twin=True))
     cs.append(dict(kind='exactcore', name='exact-circle-core-twin',
                    twin=True))
     for k in range(4 if tier == 'quick' else 12):
@@ -1008,6 +1095,9 @@ def replay(f):
                     f'{(np.max(np.abs(X)), np.max(np.abs(Y)))}'
     if k in ('exactsplit', 'exactcore'):
         return _replay_exact(w)
+    if k == 'exactellipse':
+        return False, 'skeleton obligation of the ellipse kernel: compare ' \
+                      'with translation validation'
     if k == 'kernel':
         # replay on the compiled kernel through the public grid function
         from photutils.geometry import (circular_overlap_grid,
